@@ -56,5 +56,9 @@ theorem Gen.soundDefaults_eq : (Gen.staticSoundDefaultVolume : α) = Psm.identit
 def EndPosition.toTag : EndPosition α → Gen.Shape.EndPositionTag
   | .endOfAudio => .endOfAudio | .custom _ => .custom
 theorem EndPosition.tag_order (e : EndPosition α) : e.ctorIdx = e.toTag.ctorIdx := by cases e <;> rfl
+theorem EndPosition.tag_onto (t : Gen.Shape.EndPositionTag) : ∃ e : EndPosition α, e.toTag = t := by
+  cases t
+  · exact ⟨.endOfAudio, rfl⟩
+  · exact ⟨.custom (.samples 0), rfl⟩
 
 end K
